@@ -52,6 +52,11 @@ func validatePayload(payload string) error {
 }
 
 func decodePayload(b []byte) (string, error) {
+	// an action without send (or without expect) passes the validation of the
+	// configuration and arrives here as an empty slice.
+	if len(b) == 0 {
+		return "", ErrPayloadEmpty
+	}
 	var isHexData = b[0] == 'b'
 	if !isHexData {
 		return strconv.Unquote(string(b))
